@@ -2,7 +2,7 @@
 from . import core
 
 SHORTS = ["a", "rhel", "my-prod", "a-1", "x-y-z", "fast"]
-VERSIONS = ["1", "7.1", "10.0.3", "rawhide", "fast", "eus", "20150522"]
+VERSIONS = ["1", "7.1", "10.0.3", "rawhide", "fast", "eus", "20150522", "Rawhide", "ELN.1"]
 REPS = [{"l": "a", "U": "A", "d": "1", "-": "-", ".": ".", "@": "@", "o": "_"},
         {"l": "z", "U": "Q", "d": "0", "-": "-", ".": ".", "@": "@", "o": " "},
         {"l": "m", "U": "Z", "d": "9", "-": "-", ".": ".", "@": "@", "o": "/"}]
